@@ -22,5 +22,6 @@ def run(ctx, rep):
         rt.rule_accessor_operands(rep, lg, cfg, cfg == 'logos-forbid')
     if ctx.tier == 'thorough':
         rt.rule_witnesses(rep, ctx)
+    cg.cg_controls(rep, ctx, [('M-C04a', cg.rule_utf8_gate)])
     rep.trusted += ['rustc nightly MIR', 'engines/mirfacts', 'regex-syntax Properties::is_utf8; regex-automata UTF-8 NFA compilation']
     pass
